@@ -119,6 +119,27 @@ class ConcH:
     def is_nan(self, v):
         return isinstance(v, float) and v != v or (isinstance(v, (np.floating, np.complexfloating)) and np.isnan(v))
 
+    def linear_map(self, fn, shape, complex_=True, name='f'):
+        """Kernel of a linear map by impulse responses (the real code is run once per input sample); linearity is
+        checked on the random input stored in env."""
+        base = np.asarray(fn(np.zeros(shape, dtype=complex if complex_ else float)))
+        C = None
+        for iidx in np.ndindex(*shape):
+            e = np.zeros(shape, dtype=complex if complex_ else float)
+            e[iidx] = 1
+            out = np.asarray(fn(e)) - base
+            if C is None:
+                C = np.zeros(tuple(shape) + out.shape, dtype=complex)
+            C[iidx] = out
+        f = self.carray(name, shape) if complex_ else self.rarray(name, shape)
+        full = np.asarray(fn(f))
+        lin = np.tensordot(f, C, axes=(list(range(len(shape))), list(range(len(shape)))))
+        self.eq('linear: no constant/higher-order part', full - lin, 0 * full, scale=float(np.max(np.abs(full), initial=0)))
+        if complex_:
+            rot = np.asarray(fn(1j * f)) - base
+            self.eq('linear: complex-linear', rot, 1j * (full - base), scale=float(np.max(np.abs(full), initial=0)))
+        return C
+
     # -- modules ------------------------------------------------------------------------------
     def mod(self, name):
         return importlib.import_module(name)
@@ -128,7 +149,7 @@ class ConcH:
         self.records.append({'label': label, 'kind': kind, 'ok': bool(ok), 'lhs': _ser(lhs), 'rhs': _ser(rhs),
                              'note': note})
 
-    def eq(self, label, a, b, scale=None):
+    def eq(self, label, a, b, scale=None, rtol=None):
         a = np.asarray(a)
         b = np.asarray(b)
         if self.cfg.get('__twin__'):
@@ -152,7 +173,7 @@ class ConcH:
         bv = np.where(nan_b, 0, b)
         ref = max(float(np.max(np.abs(av), initial=0)), float(np.max(np.abs(bv), initial=0)), scale or 0.0, 1e-6)
         err = float(np.max(np.abs(av - bv), initial=0))
-        self._rec(label, 'eq', err <= RTOL * ref, a, b, 'max abs err %.3e ref %.3e' % (err, ref))
+        self._rec(label, 'eq', err <= (rtol or RTOL) * ref, a, b, 'max abs err %.3e ref %.3e' % (err, ref))
 
     def holds(self, label, cond, note=''):
         if self.cfg.get('__twin__'):
